@@ -229,6 +229,62 @@ func c07Run(c *engine.Ctx) {
 	}
 	c.Sample(map[string]any{"program": "def f: . as $x | f; f", "cancellation_points": "every k in 0..horizon", "horizon": horizon})
 
+	// every corpus case on its own inputs: every cancellation point up to a smaller horizon
+	c.Sub("corpus-cancel-at-every-poll")
+	chorizon := int64(400)
+	if !c.Quick() {
+		chorizon = 2500
+	}
+	for ci, sc := range SimpleCorpus() {
+		if !c.MineIdx(ci) || c.Expired() {
+			continue
+		}
+		if usesCLIOnly(sc.Query) {
+			continue
+		}
+		q, err := gojq.Parse(sc.Query)
+		if err != nil {
+			continue
+		}
+		code, err := gojq.Compile(q)
+		if err != nil {
+			continue
+		}
+		for ii, in := range sc.Inputs {
+			if ii > 1 {
+				break
+			}
+			gkey := fmt.Sprintf("corpus#%d %s\t%s", ci, sc.Query, univ.Canon(in))
+			if !c.Guard(gkey) {
+				continue
+			}
+			ref := c07Uncancelled(code, in, chorizon)
+			if ref.panic != "" {
+				c.Unguard()
+				continue // C08's business
+			}
+			c.Eval()
+			if msg := c07CancelBetween(code, in, &ref); msg != "" {
+				c.Violation(gkey+"\tbetween", "cancellation-between-calls", map[string]any{"query": sc.Query, "input": univ.ToTagged(in), "k": -2, "horizon": chorizon, "why": msg})
+			}
+			last := ref.total + 2
+			if !ref.ended {
+				last = chorizon
+			}
+			for k := int64(0); k <= last; k++ {
+				c.Eval()
+				if msg := c07CancelAt(code, in, k, &ref); msg != "" {
+					c.Violation(fmt.Sprintf("%s\tk=%d", gkey, k), "cancellation", map[string]any{"query": sc.Query, "input": univ.ToTagged(in), "k": k, "horizon": chorizon, "why": msg})
+					break
+				}
+				c.DistinctN(1)
+			}
+			c.Unguard()
+			c.Outcome(fmt.Sprintf("corpus: ended=%v outputs=%d", ref.ended, min(len(ref.vals), 3)))
+		}
+	}
+	c.Sample(map[string]any{"programs": "every case of cli/test.yaml that is a plain query, on its own first two inputs", "cancellation_points": "every k in 0..min(run length + 2, horizon)", "horizon": chorizon})
+
 	// lifecycle over the whole corpus and grammar F2 (errors): after false, false forever; after an error, no panic
 	c.Sub("lifecycle")
 	progs := append([]string{}, CorpusQueries()...)
@@ -411,7 +467,7 @@ func init() {
 	engine.Register(&engine.Check{
 		ID:    "C07",
 		Level: "fault_enumeration",
-		Rule: "for each of ~85 programs (finite and infinite: every loop form, tail calls compiled to jumps and to callrec, native iterators, updates, paths) x 3 inputs, EVERY cancellation point k = 0..N is enumerated, k being the index of the interpreter's poll of ctx.Done() (a poll-counting context, no timers; N = the run's own length + 2, or the horizon 600/3000 for infinite programs); " +
+		Rule: "for each of ~85 programs (finite and infinite: every loop form, tail calls compiled to jumps and to callrec, native iterators, updates, paths) x 3 inputs, EVERY cancellation point k = 0..N is enumerated, k being the index of the interpreter's poll of ctx.Done() (a poll-counting context, no timers; N = the run's own length + 2, or the horizon 3000/12000 for infinite programs); the same for every plain-query case of cli/test.yaml on its own inputs (horizon 400/2500); " +
 			"each case checks prefix consistency against the uncancelled trace, that the very Next that polled returns the context's error without another step, and exhaustion afterwards; plus the iterator lifecycle (false forever after false, no panic after an emitted error, cancellation after exhaustion) over the whole corpus and an error grammar. A case is one (program, input, k).",
 		Assume:         []string{"the VM polls ctx.Done() exactly once per instruction, so a poll index is a deterministic cancellation point"},
 		Run:            c07Run,
